@@ -98,6 +98,12 @@ impl StreamBuilder {
         }
         self.chunks.append(&mut other.chunks);
         self.sync_buf.push_str(&other.sync_buf);
+        // the other builder continues this builder's chunk numbering (it is
+        // created from `clone_id()`): keep its `next_id()` calls, or the next
+        // out-of-order chunk pushed here would reuse one of its marker ids
+        if other.id.is_some() {
+            self.id = other.id.take();
+        }
     }
 
     /// Completes the stream.
